@@ -120,9 +120,9 @@ def gop(o):
         return "(GCLogLost %s)" % gev(o["ev"])
     if t == "polldead":
         return "GCPollDead"
-    if t == "restart":
+    if t in ("restart", "gsfetch"):
         aset = "None" if (o["asked"] < 0 or o["seterr"]) else "(Some %s)" % gzl(o["keys"])
-        return "(GCRestart %s %s %s)" % (gzopt(o["ai"]), gz(o["asked"]), aset)
+        return "(%s %s %s %s)" % ("GCRestart" if t == "restart" else "GCFetch", gzopt(o["ai"]), gz(o["asked"]), aset)
     raise ValueError(t)
 
 
